@@ -182,13 +182,19 @@ pub fn run_prop(ctx: &Ctx, sink: &mut Sink) {
     // ---- end to end: -regextype before / inside / after parentheses
     let errf = ctx.tmp.join("stderr17");
     let rounds = if ctx.thorough { 600 } else { 60 };
-    for _ in 0..rounds {
+    for round in 0..rounds + 32 {
         let dir = ctx.scratch("rx").join("pad").join("w");
         std::fs::create_dir_all(dir.join("d")).unwrap();
-        let sx1 = *rng.pick(&['E', 'G', 'B', 'X']);
-        let sx2 = *rng.pick(&['E', 'G', 'B', 'X']);
+        // the first 32 rounds: every arrangement x every pair of different syntaxes that matters, with a
+        // pattern that reads differently in the two (interval braces, alternation)
+        let fixed = round < 32;
+        let sx1 = if fixed { ['E', 'X'][round / 16] } else { *rng.pick(&['E', 'G', 'B', 'X']) };
+        let sx2 = if fixed { ['X', 'G', 'B', 'E'][(round / 4) % 4] } else { *rng.pick(&['E', 'G', 'B', 'X']) };
         // the pattern covers the leading "d/"
-        let body = gen(&mut rng, 2, sx2);
+        let body = if fixed {
+            let iv = Re::Interval(2, 2, Box::new(Re::Chr('a')));
+            if sx2 == 'B' { iv } else { Re::Seq(Box::new(iv), Box::new(Re::Group(Box::new(Re::Alt(Box::new(Re::Chr('b')), Box::new(Re::Chr('c'))))))) }
+        } else { gen(&mut rng, 2, sx2) };
         let re = Re::Seq(Box::new(str_re("d/")), Box::new(body.clone()));
         let mut names: Vec<String> = vec![];
         let mut s0 = String::new();
@@ -197,6 +203,7 @@ pub fn run_prop(ctx: &Ctx, sink: &mut Sink) {
             let s = if k == 0 { s0.clone() } else { mutate(&mut rng, &s0) };
             if !s.is_empty() && !s.contains('/') && s != "." && s != ".." && !names.contains(&s) { names.push(s); }
         }
+        if fixed { for extra in ["aab", "aac", "aa", "a{2,2}", "a{2,2}(b|c)", "a\\{2,2\\}", "a"] { if !names.iter().any(|n| n == extra) { names.push(extra.to_string()); } } }
         for nm in &names { std::fs::write(dir.join("d").join(nm), b"").unwrap(); }
         let ic = rng.chance(1, 5);
         // token layout: [regextype T1] ( [regextype T2] regex ) …  in a few arrangements
@@ -205,7 +212,8 @@ pub fn run_prop(ctx: &Ctx, sink: &mut Sink) {
         let rx_tok = format!("regex:{}:{sx2}:{}", ic as u8, wire(&re));
         let pat = print(&re, sx2);
         let prim = if ic { "-iregex" } else { "-regex" };
-        let (toks, argv): (Vec<String>, Vec<String>) = match rng.below(4) {
+        let arrangement = if fixed { round % 4 } else { rng.below(4) };
+        let (toks, argv): (Vec<String>, Vec<String>) = match arrangement {
             0 => (vec![format!("regextype:{sx2}"), rx_tok.clone()], vec!["-regextype".into(), t2.into(), prim.into(), pat.clone()]),
             1 => (vec![format!("regextype:{sx2}"), "lp".into(), rx_tok.clone(), "rp".into()], vec!["-regextype".into(), t2.into(), "(".into(), prim.into(), pat.clone(), ")".into()]),
             2 => (vec![format!("regextype:{sx1}"), "lp".into(), format!("regextype:{sx2}"), rx_tok.clone(), "rp".into()], vec!["-regextype".into(), t1.into(), "(".into(), "-regextype".into(), t2.into(), prim.into(), pat.clone(), ")".into()]),
